@@ -1,5 +1,5 @@
 #!/venv/bin/python
-"""keep_round2.py <matrix.json> ...  -- files the confirmed round-2 seeded changes (seeded/_incoming2/<Cxx>/patch<k>.diff) as
+"""keep_round2.py <matrix.json> ...  -- files the confirmed round-2 seeded changes (the staging directory <Cxx>/patch<k>.diff) as
 seeded/<Cxx>-<k+2>/{patch.diff, demo.py, meta.json}.  caught_by is taken from the mutation-matrix results (tools/mut_matrix.py;
 later files override earlier ones for the same (seed, check) pair)."""
 import json, os, shutil, sys
